@@ -261,6 +261,16 @@ def lb2(F, R):
             pair = v[0] == "field" and v[2] == "(tuple)::1" and i0[0] == "field" and i0[2] == "(tuple)::0" and \
                 strip_sites(strip_load(v[1])) == strip_sites(strip_load(i0[1])) and strip_load(v[1])[0] == "item"
             allowed = ("enumerate", "collect")
+            # the slot number must count characters: `char_indices()` pairs each character with its BYTE offset
+            if pair and mentions(item[1], lambda x: x[0] == "iter" and x[2] == "char_indices") and "enumerate" not in ads:
+                R.bad("LB2", "LB2/Label::from_str/slot-index-is-byte-offset", e.where(),
+                      "the slot a character is stored in is its byte offset in the text (char_indices), not its position among the "
+                      "characters: a multi-byte character leaves holes in the array or pushes later characters past slot 7, so texts of "
+                      "at most 8 characters are rejected and parsed labels differ from directly built ones", detail)
+                continue
+            # ... and come from the enumeration of the characters themselves
+            if pair and (not ads or ads[-1] != "enumerate"):
+                pair = False
         else:
             # zip of the slots with the characters: both sides of one zip item
             loc = strip_load(e.loc)
